@@ -193,7 +193,7 @@ Section Greedy.
   (** What a successfully constructed step is. *)
   Definition step_ok (s : step) : Prop :=
     exists inputs,
-      s_inputs s = rrefs inputs /\ s_in_value s = sum_values inputs /\ s_tin s = 0 /\ s_pay s = pay
+      s_inputs s = rrefs inputs /\ s_in_value s = sum_values inputs /\ s_tins s = [] /\ s_pay s = pay
       /\ s_anchor s = Some step_anchor
       /\ good inputs /\ step_balanced s = true.
 
@@ -204,7 +204,7 @@ Section Greedy.
     intros G H. unfold step_from_parts in H.
     destruct (iw && _ && _); [discriminate|].
     destruct (_ =? _) eqn:E; [|discriminate]. inversion H; subst. clear H.
-    split; [|split; reflexivity]. exists inputs. cbn [s_inputs s_in_value s_tin s_pay s_anchor].
+    split; [|split; reflexivity]. exists inputs. cbn [s_inputs s_in_value s_tins s_pay s_anchor].
     split; [reflexivity|]. split; [reflexivity|]. split; [reflexivity|]. split; [reflexivity|].
     split; [reflexivity|]. split; [exact G|].
     unfold step_balanced, s_change. cbn [s_in_value s_pay s_changes s_fee]. lia.
